@@ -4,7 +4,7 @@
    [demux_unit] / [parse_pat_packet] / [parse_pmt_packet] are the reference
    ISO/IEC 13818-1 demultiplexer of Mpegts/TsDemux.v. *)
 From Lal Require Import Common.LBytes Mpegts.TsPack Mpegts.TsPsi Mpegts.TsDemux
-  Mpegts.TsPackProofs Mpegts.TsPsiProofs Mpegts.TsStreamProofs.
+  Mpegts.TsPackProofs Mpegts.TsPsiProofs Mpegts.TsStreamProofs Mpegts.TsCrcProofs.
 Open Scope N_scope.
 
 (* Every frame with at least one byte, any length, key or not, PTS = DTS or
@@ -94,6 +94,23 @@ Theorem c09_crc_table : forall i, i < 256 ->
   nth (N.to_nat i) crc32_table 0 = bswap32 (crc_byte (i * 16777216) 0).
 Proof. exact crc32_table_correct. Qed.
 Print Assumptions c09_crc_table.
+
+(* CalcCrc32 for EVERY buffer: the four bytes Psi.Pack stores (LePutUint32 of
+   the table-driven, byte-swapped register started at 0xffffffff) are the
+   big-endian CRC_32 of annex A computed bit by bit, and the residue over
+   data ++ CRC_32 is zero *)
+Theorem c09_crc : forall buf, bytes_ok buf ->
+  le_put 4 (calc_crc32 4294967295 buf) = be_put 4 (spec_crc32 buf)
+  /\ spec_crc32 (buf ++ le_put 4 (calc_crc32 4294967295 buf)) = 0.
+Proof. intros buf H. split; [exact (calc_crc32_is_annex_a buf H)|exact (calc_crc32_residue buf H)]. Qed.
+Print Assumptions c09_crc.
+
+(* hence every section PsiSection.Pack emits, whatever its table content
+   (any PAT / PMT entries and descriptors), carries a verifying CRC_32 *)
+Theorem c09_psi_any_section : forall p : psi, 0 < calc_psi_section_length p ->
+  spec_crc32 (skipn 1 (psi_pack p)) = 0.
+Proof. exact psi_pack_crc_valid. Qed.
+Print Assumptions c09_psi_any_section.
 
 (* The arithmetic of the pinned tree (kept executable as [pack_pinned]) does
    NOT have the property; both witnesses were replayed on the Go code before
